@@ -81,7 +81,10 @@ RECURSIVE Merges(_, _)
 Merges(a, b) == IF a = <<>> THEN {b} ELSE IF b = <<>> THEN {a}
                 ELSE {<<Head(a)>> \o m : m \in Merges(Tail(a), b)} \cup {<<Head(b)>> \o m : m \in Merges(a, Tail(b))}
 Mag1P == T(1, FALSE, 0, <<<<20, RA>>, <<22, RB>>>>) \o DSame(FALSE) \o T(2, FALSE, 0, <<<<21, RC>>>>)
+\* (the other magazine transmits the page with the same number, or a page with another number)
+DOtherNum == <<Hdr(2, 0, 5, TRUE, FALSE, 0, 0), Row(2, 20, RC, 0)>>
 CasesP == {[st |-> Stream(m, g), op |-> Opt(100, 0)] : m \in Merges(Mag1P, DOther(FALSE)), g \in {1, 3}}
+          \cup {[st |-> Stream(m, 2), op |-> Opt(100, 0)] : m \in Merges(Mag1P, DOtherNum)}
 
 \* E: extras
 BaseE == T(1, TRUE, 0, <<<<20, RA>>>>) \o DSame(TRUE) \o T(2, TRUE, 0, <<<<22, RC>>>>)
@@ -148,6 +151,8 @@ CasesD == {[st |-> Stream(us, g), op |-> Opt(100, 0)] : g \in {1, 2},
                       <<DesigDc("m29", 1, 1, TRUE, 4)>> \o TD(1) \o TD(2),                  \* M/29/4
                       <<Hdr(1, 0, 0, TRUE, TRUE, 0, 1), DesigDc("x28", 1, 1, TRUE, 4), Row(1, 20, RN, 1)>> \o TD(2),    \* X/28/4
                       <<DesigDc("m29", 1, 1, FALSE, 1)>> \o TD(1) \o TD(2),                 \* M/29/1 designates nothing
+                      \* both: the page's own designation (X/28) goes before the magazine's (M/29)
+                      <<Desig("m29", 1, 0, FALSE), Hdr(1, 0, 0, TRUE, TRUE, 0, 1), Desig("x28", 1, 1, TRUE), Row(1, 20, RN, 1)>> \o TD(2),
                       TD(1) \o TD(2)}}
 
 Cases(fam) == CASE fam = "D" -> CasesD [] fam = "M" -> CasesM [] fam = "I" -> CasesI [] fam = "S" -> CasesS [] fam = "P" -> CasesP [] fam = "E" -> CasesEOK [] fam = "A" -> CasesA [] fam = "H" -> CasesH [] fam = "C" -> CasesC
